@@ -547,6 +547,81 @@ def call_result_tests(f, call_bb, family=None, enum_success=None, awaited=None):
     return value_tests(f, [d], family=family, enum_success=enum_success)
 
 
+_FLAG_CACHE = {}
+
+
+def flag_locals(f):
+    """Bool locals that are only ever assigned literal true/false (materialised conditions,
+    e.g. the result local of `matches!` or `a && b`) -> {local: {bb: value}}."""
+    c = _FLAG_CACHE.get(id(f))
+    if c is not None:
+        return c
+    assigns = {}
+    bad = set()
+    for b, i, s in f.stmts():
+        if s["k"] != "a":
+            continue
+        l = s["lhs"]["l"]
+        if s["lhs"].get("p"):
+            bad.add(l)
+            continue
+        rv = s["rv"]
+        if f.locals[l] == "bool" and rv["k"] == "use" and rv["o"]["k"] == "const" and rv["o"].get("v") in ("true", "false"):
+            assigns.setdefault(l, {})[b] = 1 if rv["o"]["v"] == "true" else 0
+        else:
+            bad.add(l)
+    for b, t in f.calls():
+        if t["k"] == "call":
+            bad.add(t["dest"]["l"])
+    used = set()
+    for b in f.reachable(0):
+        t = f.blocks[b]["t"]
+        if t["k"] == "switch" and op_local(t["d"]) is not None:
+            used.add(op_local(t["d"]))
+    out = {l: m for l, m in assigns.items() if l not in bad and l in used and l > f.argc}
+    _FLAG_CACHE[id(f)] = out
+    return out
+
+
+def reachable_fs(f, starts, removed_edges=()):
+    """Reachability that tracks the value of materialised-condition flags (see flag_locals):
+    a switch on a flag whose value is known follows only the matching edge.  Sound refinement
+    of plain CFG reachability for the `matches!` / `&&` lowering."""
+    flags = flag_locals(f)
+    removed_edges = set(removed_edges)
+    if not flags:
+        return f.reachable(starts, removed_edges)
+    seen = set()
+    out = set()
+    starts = [starts] if isinstance(starts, int) else list(starts)
+    stack = [(s, frozenset()) for s in starts]
+    while stack:
+        b, st = stack.pop()
+        if (b, st) in seen:
+            continue
+        seen.add((b, st))
+        out.add(b)
+        d = dict(st)
+        for l, m in flags.items():
+            if b in m:
+                d[l] = m[b]
+        t = f.blocks[b]["t"]
+        succs = f.succs()[b]
+        if t["k"] == "switch":
+            l = op_local(t["d"])
+            if l in flags and l in d:
+                explicit = {int(v): tb for v, tb in t["targets"]}
+                tgt = explicit.get(d[l], t["otherwise"])
+                succs = [tgt]
+        # the flag is consumed by `move` in the switch; keep state small: drop it after use
+        nst = frozenset(d.items())
+        for s2 in succs:
+            if (b, s2) in removed_edges:
+                continue
+            stack.append((s2, nst))
+    return out
+
+
 def requires(f, site_bb, tests, levels=None):
     """True iff `site_bb` is unreachable from entry once the success edges of `tests` are
     removed - per level (all listed levels must individually guard the site)."""
@@ -563,7 +638,7 @@ def requires(f, site_bb, tests, levels=None):
         removed = set()
         for t in ts:
             removed.update(t.success)
-        if site_bb in f.reachable(0, removed_edges=removed):
+        if site_bb in reachable_fs(f, 0, removed_edges=removed):
             return False
     return True
 
@@ -575,7 +650,7 @@ def requires_failure(f, site_bb, tests):
     removed = set()
     for t in tests:
         removed.update(t.failure)
-    return site_bb not in f.reachable(0, removed_edges=removed)
+    return site_bb not in reachable_fs(f, 0, removed_edges=removed)
 
 
 # ------------------------------------------------------------------------------------------
